@@ -363,9 +363,12 @@ def deep_rebind_ops(kind):
     add('one-path', f"r.rebind({{'y[0]': {V}}})")
     add('one-path', f"r.rebind({{'y[2].x.w': {V}}})")
     add('one-path/parented', "r.rebind({'x.p': t})")
-    add('several-paths', f"r.rebind({{'x.p.pp': {V}, 'y[0]': pg.Insertion({V}), 'y[2].x': t, 'x.q[0]': s}})", True)
+    add('several-paths', f"r.rebind({{'x.p.pp': {V}, 'y[2].x': t, 'x.q[0]': s, 'y[0]': pg.Insertion({V})}})", True)
     add('several-paths/insert-delete',
-        f"r.rebind({{'y[0]': pg.MISSING_VALUE, 'y[1]': pg.Insertion({V}), 'x.q': pg.MISSING_VALUE, 'y[2].y': {V}}})", True)
+        f"r.rebind({{'y[2].y': {V}, 'x.q': pg.MISSING_VALUE, 'y[1]': pg.Insertion({V}), 'y[0]': pg.MISSING_VALUE}})", True)
+    add('several-paths/raising-midway', f"r.rebind({{'x.p.pp': {V}, 'y[0]': pg.Insertion({V}), 'y[2].x': t, 'x.q[0]': s}})")
+    add('several-paths/raising-midway',
+        f"r.rebind({{'y[0]': pg.MISSING_VALUE, 'y[1]': pg.Insertion({V}), 'x.q': pg.MISSING_VALUE, 'y[2].y': {V}}})")
     add('several-paths',
         f"r.rebind({{'y[0]': pg.Insertion({V}), 'x.p': pg.MISSING_VALUE}}, skip_notification=True)",
         ctx='@skip_notification')
@@ -386,8 +389,12 @@ def deep_rebind_ops(kind):
     add('one-path', f"r.rebind({{'d.n.m': {V}}})")
     add('one-path/parented', "r.rebind({'a.x': t})")
     add('several-paths', f"r.rebind({{'l[0]': {W}, 'd.n.m': {V}, 'd.k[0]': pg.Insertion({V}), 'a.x': s}})", True)
-    add('several-paths/insert-delete',
-        f"r.rebind({{'l[0]': pg.Insertion({W}), 'l[1]': pg.MISSING_VALUE, 'd.k[0]': pg.MISSING_VALUE, 'a': pg.MISSING_VALUE}})", True)
+    add('several-paths/insert-reset',
+        f"r.rebind({{'l[0]': pg.Insertion({W}), 'd.k[0]': pg.Insertion({V}), 'a': pg.MISSING_VALUE, 'd.n': pg.MISSING_VALUE}})", True)
+    add('several-paths/raising-midway',
+        f"r.rebind({{'l[0]': pg.Insertion({W}), 'l[1]': pg.MISSING_VALUE, 'd.k[0]': pg.MISSING_VALUE, 'a': pg.MISSING_VALUE}})")
+    add('several-paths/raising-midway',
+        f"r.rebind({{'d.k[0]': pg.Insertion({V}), 'l[0]': pg.Insertion({W}), 'nofield': 1}})")
     add('several-paths',
         f"r.rebind({{'l[0]': pg.Insertion({W}), 'd.k[0]': pg.MISSING_VALUE}}, skip_notification=True)",
         ctx='@skip_notification')
@@ -884,7 +891,7 @@ def drv_histories_exhaustive(tier, seed):
              'mutator x 8 value classes x every container of the tree '
              f'({sizes} statements, of which core: {cores}); all histories of '
              'length 1; length 2: '
-             + ('core x core restricted to pairs with (j - i) % 7 == seed % 7'
+             + ('core x core restricted to pairs with (j - i) % 9 == seed % 9'
                 if quick else
                 'core x core, all x core[::5], core[::5] x all; length 3: '
                 'core[::6]^3')))
@@ -896,7 +903,7 @@ def drv_histories_exhaustive(tier, seed):
       if quick:
         _enumerate(rec, kind, ops, [], wd=wd)
         _enumerate(rec, kind, core,
-                   lambda i: core[(i + seed) % 7::7],  # pylint: disable=cell-var-from-loop
+                   lambda i: core[(i + seed) % 9::9],  # pylint: disable=cell-var-from-loop
                    wd=wd, record_first=False)
       else:
         _enumerate(rec, kind, ops, [], wd=wd)
